@@ -280,7 +280,7 @@ class Inliner:
         if any(d not in ("staticmethod", "classmethod") for d in g.decorators):
             return None
         a = g.node.args
-        if a.vararg or a.kwarg:
+        if a.kwarg:
             return None
         n_st = 0
         for n in walk_local(g.node):
@@ -315,7 +315,12 @@ class Inliner:
             bind[pos[0]] = recv
             pos = pos[1:]
         if len(args) > len(pos):
-            raise _Bail("too many positional arguments")
+            if a.vararg is None:
+                raise _Bail("too many positional arguments")
+            bind[a.vararg.arg] = ast.copy_location(ast.Tuple(elts=list(args[len(pos):]), ctx=ast.Load()), call)
+            args = args[: len(pos)]
+        elif a.vararg is not None:
+            bind[a.vararg.arg] = ast.copy_location(ast.Tuple(elts=[], ctx=ast.Load()), call)
         for p, v in zip(pos, args):
             bind[p] = v
         for k in call.keywords:
